@@ -128,20 +128,22 @@ def admits(c, v):
 def exemplar_cases(tier):
     shapes = list(PRIMS)
     tuples = [('t', ()), ('t', (('a', 'i'),)), ('t', (('a', 's'),)), ('t', (('a', 'i'), ('b', 's'))), ('t', (('b', 's'),)), ('t', (('a', 'i'), ('c', 'b')))]
-    lists = [('l', ()), ('l', ('i',)), ('l', ('s',)), ('l', ('i', 's')), ('l', ('i', 'i'))]
+    lists = [('l', ())] + [('l', (a,)) for a in PRIMS] + [('l', (a, c)) for a in PRIMS for c in PRIMS]
+    lists3 = [('l', ('i', 'i', 'b')), ('l', ('i', 's', 'b')), ('l', ('b', 'i', 's')), ('l', ('s', 's', 's'))]
     nested = [('t', (('a', ('t', (('x', 'i'),))),)), ('t', (('a', ('t', (('x', 's'),))),)), ('t', (('a', ('l', ('i',))),)), ('l', (('t', (('a', 'i'),)),)), ('l', (('t', (('a', 's'),)),)),
               ('l', (('l', ('i',)),))]
-    cons = shapes + tuples + lists + nested
-    vals = shapes + ['n'] + tuples + lists + nested
-    if tier == 'quick':
-        cons = shapes + tuples[:5] + lists[:4] + nested[:4]
-        vals = shapes[:3] + ['n'] + tuples[:5] + lists[:4] + nested[:4]
+    nested += [('t', (('xs', ('l', ('i', 's'))),)), ('t', (('xs', ('l', ('i', 'b'))),)), ('l', (('l', ('i', 's')),)), ('l', (('l', ('i', 'b')),))]
+    small = shapes + tuples + lists[:5] + nested
     cs = []
-    for c in cons:
-        for v in vals:
+    for c in small:
+        for v in small + ['n']:
             cs.append({'fam': 'exemplars', 'c': c, 'v': v, 'named': False})
-    for c in tuples[1:4] + lists[1:3]:
-        for v in tuples[:5] + lists[:4] + ['i']:
+    # every pair of list exemplar / list value over the four primitive element types, 0..2 (+ selected 3) element types
+    for c in lists + (lists3 if tier != 'quick' else lists3[:2]):
+        for v in lists + lists3:
+            cs.append({'fam': 'exemplars', 'c': c, 'v': v, 'named': False})
+    for c in tuples[1:4] + [('l', ('i', 's')), ('l', ('i',)), ('l', ('s', 'b'))]:
+        for v in tuples[:5] + [('l', ('i', 'b')), ('l', ('b', 'i')), ('l', ('i', 's')), ('l', ('s',)), ('l', ())] + ['i']:
             cs.append({'fam': 'exemplars', 'c': c, 'v': v, 'named': True})
     return cs
 
